@@ -7,6 +7,7 @@ import (
 	"encoding/base64"
 	"encoding/json"
 	"fmt"
+	"math/big"
 	"strings"
 
 	"verif/engine/core"
@@ -164,6 +165,17 @@ func Run(r *core.Run) {
 				return nil
 			})
 			r.Observe(compact, jwk["x"].(string))
+		}
+		// the mirror point (x, p-y): another valid key of the same curve with the same x
+		if it.k.EC != nil {
+			m := it.k.JWKMap()
+			p := keys.Curve(it.k.Type).Params().P
+			ny := new(big.Int).Sub(p, it.k.EC.Y).Bytes()
+			pad := make([]byte, keys.Width(it.k.Type)-len(ny))
+			m["y"] = enc.EncodeToString(append(pad, ny...))
+			judge(base+"/mirror-point-key", it.compact, m, false)
+			// and the genuine key again afterwards (a verdict must not depend on what was verified before)
+			judge(base+"/own-key-after-mirror", it.compact, own, false)
 		}
 		// every other key
 		for _, o := range ks {
